@@ -10,13 +10,13 @@ def chk(pid, text, note, technique, design):
 
 
 chk("C06",
-    "Coq theorems for all strings: invalid_import_path rejects exactly the non-canonical names; accepted names are their own normal form and resolve strictly below any root; the rmdir climb never reaches the root. Tie: the function is re-translated from /repo on every run and proved equal to the model (T1); exhaustive/random strings and real remove_filedir runs are evaluated by the model in Coq (T2). Daemon-wide effect confinement is monitored on interposed file-system calls in histories, not proved.",
+    "Coq theorems for all strings: invalid_import_path rejects exactly the non-canonical names; accepted names are their own normal form and resolve strictly below any root; the rmdir climb never reaches the root. Tie: the function is re-translated from /repo on every run and proved equal to the model (T1); exhaustive/random strings and real remove_filedir runs are evaluated by the model in Coq (T2). Daemon-wide effect confinement is monitored, not proved: in random histories and in scripted symlink scenarios (a request or scan reaching a file through a symlinked directory or file, followed by replication and cleaning) every interposed mutating call must lie, and resolve, inside the root of a node managed by the iterating daemon, and the file outside all roots must survive.",
     "Coq kernel+VM; translator fragment; lexical path model (no symlinks); pathlib normalisation compared by correspondence only",
     "Coq proof (structural induction over strings via a 4-state scanner) + regenerated-model tie + vm_compute correspondence",
     "DESIGN.md §4 C06")
 
 chk("C05",
-    "Coq theorems over the item model (Model/Item.v; rounds = every daemon iterates once: decisions on the index as the iteration starts, then the queued tasks in order): from every item state (consistent or not) in every environment (source active or not, destination usable or not, full or not, 3 routes, 4 transport kinds, deletion allowed or not) four fault-free rounds reach a state that no later round changes, at which no copy on a managed node is suspect unless released, a released copy is deleted unless the deletion-safety rule holds it back, and a request is completed, cancelled, or pending with one of the six documented reasons, each of which is shown genuine. Decided by vm_compute over the complete enumeration (11 232 states x 192 environments) lifted by forallb_forall. Tie (T2): five fault-free rounds of the real daemons on single-item worlds from arbitrary start states are compared round by round with the model in Coq. Multi-item: random multi-host histories followed by fault-free rounds of all daemons to two identical snapshots, residual work judged by an independent blocking-reason oracle (monitor; the cross-item bound is observed, not proved).",
+    "Coq theorems over the item model (Model/Item.v; rounds = every daemon iterates once: decisions on the index as the iteration starts, then the queued tasks in order): from every item state (consistent or not) in every environment (source active or not, destination usable or not, full or not, 3 routes, 4 transport kinds, deletion allowed or not) four fault-free rounds reach a state that no later round changes, at which no copy on a managed node is suspect unless released, a released copy is deleted unless the deletion-safety rule holds it back, and a request is completed, cancelled, or pending with one of the six documented reasons, each of which is shown genuine. Decided by vm_compute over the complete enumeration (11 232 states x 192 environments) lifted by forallb_forall. Tie (T2): five fault-free rounds of the real daemons on single-item worlds from arbitrary start states are compared round by round with the model in Coq. Transport groups: TransportGroupIO.pull_force hands a local pull to a node iff some node is not under its minimum, not over its limit and has room, and then to such a node with the least free space; never for a remote source (Model/Transport.v, proved for all node lists; the three skip tests re-translated each run, T1; the real pull_force on random node tables compared in Coq, T2). Multi-item: random multi-host histories followed by fault-free rounds of all daemons to two identical snapshots, residual work judged by an independent blocking-reason oracle (monitor; the cross-item bound is observed, not proved).",
     "Coq kernel+VM; item model hand-written, tied by correspondence; rounds are serial (Sim); cross-item interference (shared source flags, autosync chains, space) only monitored; HSM / transport-class groups not simulated; import completion rests on C04's theorems and the monitors",
     "Coq proof by complete finite enumeration (vm_compute + forallb_forall) + vm_compute correspondence of fault-free rounds with the real daemons + monitored histories",
     "DESIGN.md §4 C05")
@@ -122,7 +122,7 @@ chk("C02",
     "DESIGN.md §4 C02")
 
 chk("C04",
-    "Coq theorems over the model of _import_file / update_import: symlinks, non-regular files, dot-files, transfer artefacts, paths through a symlinked directory, locked files (request stays pending), detector-rejected paths and non-canonical acquisition names never create a record or fire a rule; an import that goes through creates exactly the missing acquisition/file records and leaves one tracked copy (present+wanted, or suspect when a wanted copy had gone missing); with registration disabled nothing is registered; only relative canonical paths and resolvable in-tree scans get a task. Concurrency: for ANY number of tasks and ANY statement interleaving (statements atomic, unique indexes), the copy record is only ever absent / present+wanted / suspect+wanted, a successful task implies acquisition, file and copy exist, the step function is total (every IntegrityError handled) and every scheduled task advances. Tie: guards and the exact test sequences / INSERT fall-backs / file_walk symlink tests checked each run (T1); single import requests over path kinds x detector answers x register x pre-existing records, request vetting incl. symlink loops, scans of random real trees against os.walk+hashlib, synthetic watchdog events, and two real importers interleaved at execute_sql granularity, compared with the model in Coq / monitored (T2).",
+    "Coq theorems over the model of _import_file / update_import: symlinks, non-regular files, dot-files, transfer artefacts, paths through a symlinked directory, locked files (request stays pending), detector-rejected paths and non-canonical acquisition names never create a record or fire a rule; an import that goes through creates exactly the missing acquisition/file records and leaves one tracked copy (present+wanted, or suspect when a wanted copy had gone missing); with registration disabled nothing is registered; only relative canonical paths and resolvable in-tree scans get a task. Concurrency: for ANY number of tasks and ANY statement interleaving (statements atomic, unique indexes), the copy record is only ever absent / present+wanted / suspect+wanted, a successful task implies acquisition, file and copy exist, the step function is total (every IntegrityError handled) and every scheduled task advances. Tie: guards and the exact test sequences / INSERT fall-backs / file_walk symlink tests checked each run (T1); single import requests over path kinds x detector answers x register x pre-existing records, request vetting incl. symlink loops, scans of random real trees (with files already registered in every copy state) against os.walk+hashlib, synthetic watchdog events, and two real importers interleaved at execute_sql granularity, compared with the model in Coq / monitored (T2).",
     "Coq kernel+VM; translator fragment; detector contract; sqlite statement atomicity and unique indexes; synthesised watchdog events",
     "Coq proof (decision-function case analysis; invariant over all schedules of n tasks) + regenerated guards tie + vm_compute correspondence + tree-walk monitor",
     "DESIGN.md §4 C04")
